@@ -5,6 +5,7 @@ package anytype
 // explored path is replayed natively and every observation must agree byte for byte.
 
 import (
+	"bufio"
 	"bytes"
 	"errors"
 	"fmt"
@@ -232,6 +233,17 @@ func H_SELF_files_and_q() {
 	}
 	_, err2 := os.Open("/tmp/verif_self_missing.txt")
 	verifObserve("missing", err2 == nil)
+	// bufio over a file: real bufio code on top of the modelled (*os.File).Read
+	verifSetFile(path, "x\n"+s+"\nlast", true)
+	if g, gerr := os.Open(path); gerr == nil {
+		rd := bufio.NewReaderSize(g, 16)
+		l1, p1, e1 := rd.ReadLine()
+		l2, e2 := rd.ReadString('\n')
+		rest, e3 := io.ReadAll(rd)
+		_, e4 := rd.ReadByte()
+		verifObserve("bufio", string(l1), p1, e1 == nil, l2, e2 == nil, string(rest), e3 == nil, e4 == io.EOF)
+		g.Close()
+	}
 	verifReach("end")
 }
 
